@@ -5,16 +5,25 @@ import common, decoders
 
 PID = "C18"
 MODES = [
-    ("falloff", "pass", "FallOff"),
-    ("sys.exit()", "sys.exit()", "SysExit ANone"), ("sys.exit(None)", "sys.exit(None)", "SysExit ANone"), ("sys.exit(0)", "sys.exit(0)", "SysExit (AInt 0)"),
-    ("sys.exit(1)", "sys.exit(1)", "SysExit (AInt 1)"), ("sys.exit(3)", "sys.exit(3)", "SysExit (AInt 3)"), ("sys.exit('msg')", "sys.exit('failed')", "SysExit AStr"),
-    ("sys.exit(False)", "sys.exit(False)", "SysExit AFalse"), ("sys.exit(True)", "sys.exit(True)", "SysExit ATrue"),
-    ("raise SystemExit(0)", "raise SystemExit(0)", "RaiseSystemExit (AInt 0)"), ("raise SystemExit()", "raise SystemExit()", "RaiseSystemExit ANone"),
-    ("raise SystemExit(1)", "raise SystemExit(1)", "RaiseSystemExit (AInt 1)"), ("raise SystemExit('msg')", "raise SystemExit('failed')", "RaiseSystemExit AStr"),
-    ("exit(0)", "exit(0)", "BuiltinExit (AInt 0)"), ("exit(2)", "exit(2)", "BuiltinExit (AInt 2)"), ("quit(1)", "quit(1)", "BuiltinExit (AInt 1)"),
-    ("uncaught ValueError", "raise ValueError('boom')", "Uncaught"), ("uncaught AssertionError from pysnark", "PrivVal(1).assert_zero()", "Uncaught"),
-    ("KeyboardInterrupt", "raise KeyboardInterrupt()", "KbdInterrupt"),
-    ("os._exit(0)", "sys.stdout.flush(); sys.stderr.flush(); os._exit(0)", "OsExit 0"), ("os._exit(1)", "sys.stdout.flush(); sys.stderr.flush(); os._exit(1)", "OsExit 1"),
+    ("falloff", "pass", "R [] FallOff"),
+    ("sys.exit()", "sys.exit()", "R [] (SysExit ANone)"), ("sys.exit(None)", "sys.exit(None)", "R [] (SysExit ANone)"), ("sys.exit(0)", "sys.exit(0)", "R [] (SysExit (AInt 0))"),
+    ("sys.exit(1)", "sys.exit(1)", "R [] (SysExit (AInt 1))"), ("sys.exit(3)", "sys.exit(3)", "R [] (SysExit (AInt 3))"), ("sys.exit('msg')", "sys.exit('failed')", "R [] (SysExit AStr)"),
+    ("sys.exit(False)", "sys.exit(False)", "R [] (SysExit AFalse)"), ("sys.exit(True)", "sys.exit(True)", "R [] (SysExit ATrue)"),
+    ("sys.exit('')", "sys.exit('')", "R [] (SysExit AEmptyStr)"), ("sys.exit([])", "sys.exit([])", "R [] (SysExit AEmptyList)"),
+    ("raise SystemExit(0)", "raise SystemExit(0)", "R [] (RaiseSystemExit (AInt 0))"), ("raise SystemExit()", "raise SystemExit()", "R [] (RaiseSystemExit ANone)"),
+    ("raise SystemExit(1)", "raise SystemExit(1)", "R [] (RaiseSystemExit (AInt 1))"), ("raise SystemExit('msg')", "raise SystemExit('failed')", "R [] (RaiseSystemExit AStr)"),
+    ("exit(0)", "exit(0)", "R [] (BuiltinExit (AInt 0))"), ("exit(2)", "exit(2)", "R [] (BuiltinExit (AInt 2))"), ("quit(1)", "quit(1)", "R [] (BuiltinExit (AInt 1))"),
+    ("uncaught ValueError", "raise ValueError('boom')", "R [] Uncaught"), ("uncaught AssertionError from pysnark", "PrivVal(1).assert_zero()", "R [] Uncaught"),
+    ("KeyboardInterrupt", "raise KeyboardInterrupt()", "R [] KbdInterrupt"),
+    ("os._exit(0)", "sys.stdout.flush(); sys.stderr.flush(); os._exit(0)", "R [] (OsExit 0)"), ("os._exit(1)", "sys.stdout.flush(); sys.stderr.flush(); os._exit(1)", "R [] (OsExit 1)"),
+    # histories: a sys.exit whose SystemExit is swallowed or replaced, then another way of ending
+    ("sys.exit(0) swallowed, then uncaught ValueError", "try: sys.exit(0)\n    except SystemExit: pass\n    raise ValueError('boom')", "R [AInt 0] Uncaught"),
+    ("sys.exit(0) inside try whose finally raises", "try: sys.exit(0)\n    finally: raise ValueError('cleanup failed')", "R [AInt 0] Uncaught"),
+    ("sys.exit() swallowed, then KeyboardInterrupt", "try: sys.exit()\n    except SystemExit: pass\n    raise KeyboardInterrupt()", "R [ANone] KbdInterrupt"),
+    ("sys.exit(0) swallowed, then falloff", "try: sys.exit(0)\n    except SystemExit: pass", "R [AInt 0] FallOff"),
+    ("sys.exit(0) swallowed, then sys.exit(3)", "try: sys.exit(0)\n    except SystemExit: pass\n    sys.exit(3)", "R [AInt 0] (SysExit (AInt 3))"),
+    ("sys.exit(2) swallowed, then uncaught ValueError", "try: sys.exit(2)\n    except SystemExit: pass\n    raise ValueError('boom')", "R [AInt 2] Uncaught"),
+    ("sys.exit(0) swallowed twice, then sys.exit(0)", "try: sys.exit(0)\n    except SystemExit: pass\n    try: sys.exit(None)\n    except SystemExit: pass\n    sys.exit(0)", "R [AInt 0; ANone] (SysExit (AInt 0))"),
 ]
 BACKENDS = {"snarkjs": ["witness.wtns", "circuit.r1cs"], "zkinterface": ["computation.zkif", "circuit.zkif"], "qaptools": ["pysnark_schedule"]}
 SCRIPT = '''import sys, os
@@ -95,7 +104,7 @@ def run(tier, seed):
             if ok_status and not produced and not mode.startswith("os._exit"): bad("no-artefacts-after-success:%s" % key_mode, "script ended successfully through %s but no artefacts were produced" % mode)
             if produced and res["calls"] != 1: bad("prove-call-count", "the proving step ran %d times" % res["calls"])
             if produced and backend == "snarkjs" and isinstance(res["ncons"], int):
-                want = full_ncons if mode == "falloff" else {0: 0, 1: 1}.get(pos, full_ncons)
+                want = full_ncons if (mode == "falloff" or mode.endswith("then falloff")) else {0: 0, 1: 1}.get(pos, full_ncons)
                 if want is not None and res["ncons"] != want: bad("incomplete-trace", "circuit.r1cs holds %d constraints, %d were traced before the script ended" % (res["ncons"], want))
             if produced and isinstance(res["ncons"], str): bad("undecodable", "artefact could not be decoded: " + res["ncons"])
         else:
@@ -105,8 +114,8 @@ def run(tier, seed):
     # the decision model reproduces what was observed (prove ran / status) for every run
     body = "; ".join("(%s, %s, %s, %d)" % (m, "true" if a else "false", "true" if c else "false", s if s >= 0 else 128 - s) for m, a, c, s in rows)
     v = ("From Coq Require Import ZArith List Bool.\nFrom PySnark.Model Require Import Util ExitHook.\nImport ListNotations.\nOpen Scope Z_scope.\n"
-         "Definition rows : list (tmode * bool * bool * Z) := [%s].\n"
-         "Definition ok (r : tmode * bool * bool * Z) := let '(m, a, c, s) := r in Bool.eqb (prove_runs a m) c && (status m =? s).\n"
+         "Definition rows : list (hrun * bool * bool * Z) := [%s].\n"
+         "Definition ok (r : hrun * bool * bool * Z) := let '(m, a, c, s) := r in Bool.eqb (h_prove_runs a m) c && (h_status m =? s).\n"
          "Eval vm_compute in (bad_idx ok rows).\n" % body)
     okc, outp = common.coq_eval(v)
     flat = " ".join(outp.split())
